@@ -135,7 +135,7 @@ Verdict_MD041(L, B, cfg) ==
          IF b.k \in {"html", "bq", "ul", "ol"} \/ b.ln > 1 \/ b.depth > 0 THEN Lines(L) ELSE {})
 
 (* MD022 blanks-around-headings (lines_above = lines_below = 1): a top-level heading that is directly preceded or directly
-   followed by a non-blank line.  Undecided: headings in containers, more than one blank line, neighbours that are not
+   followed by a non-blank line.  Undecided: headings in containers, more than one blank line (a `>` line counts), neighbours that are not
    paragraphs or headings (thematic breaks, HTML blocks, containers). *)
 Verdict_MD022(L, B) ==
   LET hs == {x \in Blocks(B, "h") : B[x].depth = 0}
@@ -147,8 +147,9 @@ Verdict_MD022(L, B) ==
   V({B[i].ln : i \in {x \in hs : bad(x) /\ plainNeighbours(x)}},
     {B[i].ln : i \in {x \in Blocks(B, "h") : B[x].depth > 0 \/ ~plainNeighbours(x)
                                               \/ B[x].endln = Len(L)                      \* the file ends with the heading line
-                                              \/ (B[x].ln > 2 /\ L[B[x].ln - 1].blank /\ L[B[x].ln - 2].blank)
-                                              \/ (B[x].endln + 2 <= Len(L) /\ L[B[x].endln + 1].blank /\ L[B[x].endln + 2].blank)}})
+                                              \/ (B[x].ln > 2 /\ L[B[x].ln - 1].blank /\ (L[B[x].ln - 2].blank \/ L[B[x].ln - 2].cblank))
+                                              \/ (B[x].endln + 2 <= Len(L) /\ L[B[x].endln + 1].blank
+                                                   /\ (L[B[x].endln + 2].blank \/ L[B[x].endln + 2].cblank))}})
 
 (* MD004 ul-style: the marker of an unordered list differs from the configured one / from the first unordered list item's
    (consistent) / from the first item's at the same nesting level of unordered lists (sublist).  The rule must name the
